@@ -7,7 +7,7 @@
 5. array types whose nullness is not in their own validity buffer override logical_nulls & friends;
 6. fallible element closures only run on valid slots (rule shared with C12)."""
 import re
-from . import facts as factsmod, flow, dtm, arms, pairs, c12
+from . import facts as factsmod, flow, dtm, arms, pairs, c12, nullguard
 from .mirlib import Body, callee
 
 LOGICAL = [("arrow_array::array::dictionary_array::DictionaryArray", ["logical_nulls", "is_nullable"]),
@@ -59,6 +59,8 @@ def run(ck, tier):
     pairs.check(ck, F, "C02.buffer-offset-pair", ["arrow_arith", "arrow_buffer", "arrow_select", "arrow_data", "arrow_array", "arrow_ord", "arrow_string", "arrow_cast"], 15)
 
     pairs.check_cross(ck, F, "C02.bitcopy-offset-slots", ["arrow_buffer", "arrow_data", "arrow_array", "arrow_select", "arrow_arith", "arrow_cast"], 3)
+
+    nullguard.check(ck, F, "C02.null-guarded-access", nullguard.load_table(), 35)
 
     ck.rule("C02.logical-nulls-overridden", "array types whose nulls do not live in their own validity buffer override logical_nulls and is_nullable (logical_null_count defaults to counting logical_nulls)", floor=len(LOGICAL))
     c = F.crate("arrow_array")
